@@ -34,7 +34,7 @@ def tie(ctx):
 
 
 def search(ctx, hint):
-    return sc.search_with(ctx, hint, [(f's{k}', ['models', 200]) for k in range(6)] + [(f'f{k}', ['forced', 200]) for k in range(3)] + [('v', ['vacc', 300]), ('cf', ['compfix', 300]), ('f0', ['fixrec0', 300])])
+    return sc.search_with(ctx, hint, [(f's{k}', ['models', 200]) for k in range(6)] + [(f'f{k}', ['forced', 200]) for k in range(3)] + [('v', ['vacc', 300]), ('cf', ['compfix', 300]), ('bd', ['fixrec0', 300])])
 
 
 def replay(ctx, rep):
